@@ -14,5 +14,5 @@ git apply -R SEED/patch.diff || exit 2
 git apply SEED/patch.diff || exit 2
 echo "demo exit with change=$with (want !=0), without change=$without (want 0)"
 mkdir -p /dev/shm/seedrun/$id
-cd /verif && VERIF_REPO="$wt" VERIF_EVIDENCE_DIR=/dev/shm/seedrun/$id VERIF_REPLAY_DIR=/dev/shm/seedrun/$id bin/vcheck $id --tier $tier 2>&1 | head -12
-echo "check exit=${PIPESTATUS[0]}"
+cd /verif && VERIF_REPO="$wt" VERIF_EVIDENCE_DIR=/dev/shm/seedrun/$id VERIF_REPLAY_DIR=/dev/shm/seedrun/$id bin/vcheck $id --tier $tier > /dev/shm/seedrun/$id/check.out 2>&1; rc=$?; head -8 /dev/shm/seedrun/$id/check.out
+echo "check exit=$rc"
